@@ -1,7 +1,7 @@
 """Rules on the Rust finder's macro filter and pair walk, shared by C10, C11, C13, C17."""
 import re
 from .. import cfg
-from ..common import (tuple_field_src, call_chain, trace_bool, bool_switch_targets, enum_switch, return_values, single_def, loop_containing)
+from ..common import (assignments_to, tuple_field_src, call_chain, trace_bool, bool_switch_targets, enum_switch, return_values, single_def, loop_containing)
 from ..facts import op_place, op_const, rv_str
 from ..fmtdec import template_of_call
 from ..prov import Prov
@@ -12,7 +12,10 @@ MOI = r"rust_log_ref_finder::macro_of_interest$"
 
 def rule_macro_filter(ctx, facts, prefix):
     """macro_of_interest = ∃ configured macro: name == m.name  ∨  name == m.module + "::" + m.name
-    (whole-string equality, all configured macros considered)."""
+    (whole-string equality, all configured macros considered). Decided as a decision table of the
+    loop body over the atoms B (bare comparison) and Q (qualified comparison), so `==`/`!=`, arm
+    order, early returns vs a found-flag are all the same to the rule."""
+    from .. import dte
     m = facts.one(MOI)
     if not ctx.check(m is not None, prefix, "anchor|macro_of_interest", "macro filter found", ""):
         return
@@ -24,66 +27,89 @@ def rule_macro_filter(ctx, facts, prefix):
     names = [c.name.split("::")[-1] for c in chain]
     src_ok = root == ("param", 2) and all(n in ("into_iter", "iter", "deref") for n in names)
     ctx.check(src_ok, prefix, "filter-source", "the loop visits every entry of config.rust.log_macros (chain %s)" % names, nx.where())
-    # comparisons
-    eqs = [c for c in m.calls if c.matches(r"PartialEq.*::eq$|::eq$")]
-    others = [c for c in m.calls if c.matches(r"::(starts_with|ends_with|contains|find|rfind|matches|eq_ignore_ascii_case|to_lowercase|to_uppercase|trim\w*|strip_\w+)$|::ne$")]
+    others = [c for c in m.calls if c.matches(r"::(starts_with|ends_with|contains|find|rfind|matches|eq_ignore_ascii_case|to_lowercase|to_uppercase|to_ascii_lowercase|trim\w*|strip_\w+|split\w*|rsplit\w*)$")]
     ctx.check(not others, prefix, "filter-fuzzy", "the filter uses no prefix/suffix/substring/case-folding test (%s)" % ([c.name for c in others] or "none"), m.where())
+    # the qualified form's template
+    for x in m.calls_to(r"fmt::Arguments::<.*>::new"):
+        t = template_of_call(x)
+        shape = [(k, v if k == "lit" else None) for k, v in (t or [])]
+        ctx.check(shape == [("arg", None), ("lit", "::"), ("arg", None)], prefix, "filter-qualified-template", "the qualified form is `{}::{}` (%s)" % t, x.where())
+    disp = m.calls_to(r"Argument::<.*>::new_display$")
+    if disp:
+        fields = [_last_field(m, tuple_field_src(m, d.args[0])) for d in disp]
+        ctx.check(fields == ["module", "name"], prefix, "filter-qualified-order", "the qualified form is module then name (%s)" % fields, disp[0].where())
+
     kinds = set()
-    for c in eqs:
+
+    def call_hook(c):
+        if not c.matches(r"PartialEq.*::(eq|ne)$|::eq$|::ne$") or len(c.args) < 2:
+            return None
         sides = [call_chain(m, a) for a in c.args[:2]]
         roots = [r for _, r in sides]
         name_side = [i for i, r in enumerate(roots) if r == ("param", 1) and not [x for x in sides[i][0] if not x.matches(r"::as_str$|::deref$")]]
-        if not ctx.check(len(name_side) == 1, prefix, "filter-eq-name|%s" % c.bb, "one side of the comparison is the statement's macro name, whole", c.where()):
-            continue
+        if len(name_side) != 1:
+            return ("?cmp@%s" % c.line, "bool", True)
         o = sides[1 - name_side[0]]
-        ocalls = [x.name.split("::")[-1] for x in o[0]]
-        fmt = [x for x in o[0] if x.matches(r"fmt::format$")]
-        if fmt:
-            # qualified name: template {}::{} with (module, name)
-            args = None
-            for x in m.calls_to(r"fmt::Arguments::<.*>::new"):
-                t = template_of_call(x)
-                shape = [(k, v if k == "lit" else None) for k, v in (t or [])]
-                ok = shape == [("arg", None), ("lit", "::"), ("arg", None)]
-                ctx.check(ok, prefix, "filter-qualified-template", "the qualified form is `{}::{}` (%s)" % t, x.where())
-            disp = m.calls_to(r"Argument::<.*>::new_display$")
-            fields = []
-            for d in disp:
-                ch, rt = call_chain(m, d.args[0])
-                fields.append(_last_field(m, tuple_field_src(m, d.args[0])))
-            ctx.check(fields == ["module", "name"], prefix, "filter-qualified-order", "the qualified form is module then name (%s)" % fields, c.where())
+        positive = not c.matches(r"::ne$")
+        if any(x.matches(r"fmt::format$") for x in o[0]):
             kinds.add("qualified")
-        else:
-            f = _last_field(m, c.args[1 - name_side[0]])
-            ctx.check(f == "name", prefix, "filter-bare-field", "the bare form compares with the configured `name` (%s)" % f, c.where())
+            return ("Q", "bool", positive)
+        f = _last_field(m, c.args[1 - name_side[0]])
+        if f == "name":
             kinds.add("bare")
-    ctx.check(kinds == {"bare", "qualified"}, prefix, "filter-forms", "both path forms are accepted: bare and module-qualified (%s)" % sorted(kinds), m.where())
-    # returns: true only on an eq's true arm; false only after the iterator is exhausted
-    dom = cfg.dominators(m)
+            return ("B", "bool", positive)
+        return ("?field:%s" % f, "bool", positive)
+
     es = enum_switch(m, nx.target) if nx.target is not None else None
-    none_arm = None
-    if es:
-        none_arm = es[1].get(0, es[2])
-    for (bb, st) in return_values(m):
-        v = (op_const(st["rv"].get("op")) or {}).get("int") if st["rv"]["k"] == "use" else None
-        if v == 0:
-            ctx.check(none_arm is not None and none_arm in dom.get(bb, ()), prefix, "filter-early-false",
-                      "`false` is returned only after every configured macro was compared", m.where(bb))
-        elif v == 1:
-            arms = []
-            for c in eqs:
-                for sb in sorted(m.reachable_blocks()):
-                    t = m.term(sb)
-                    if t["k"] == "switch":
-                        k, pl, neg = trace_bool(m, t["discr"])
-                        if k == "call" and pl.bb == c.bb:
-                            tt, ft = bool_switch_targets(m, sb)
-                            if neg:
-                                tt, ft = ft, tt
-                            arms.append(tt)
-            ctx.check(any(a in dom.get(bb, ()) for a in arms), prefix, "filter-true-arm", "`true` is returned only when an equality held", m.where(bb))
-        else:
-            ctx.bad(prefix, "filter-odd-return", "unexpected return %s" % rv_str(st["rv"]), m.where(bb))
+    if not ctx.check(es is not None, prefix, "filter-loop-shape", "loop shape recognised", nx.where()):
+        return
+    some_arm, none_arm = es[1].get(1, es[2]), es[1].get(0, es[2])
+
+    # result sites: constant assignments that end up in _0 (directly or through a found-flag)
+    def ret_events(bb, x):
+        if isinstance(x, dict) and x.get("k") == "assign" and not x["dst"]["p"] and x["rv"]["k"] == "use":
+            c = op_const(x["rv"]["op"])
+            if c is not None and c.get("ty") == "bool" and (x["dst"]["l"] == 0 or x["dst"]["l"] in flag_locals):
+                return "set:%s" % bool(c["int"])
+        return None
+
+    flag_locals = set()
+    for (bb, st) in assignments_to(m, 0):
+        if st["rv"]["k"] == "use":
+            p = op_place(st["rv"]["op"])
+            if p is not None and not p["p"]:
+                flag_locals.add(p["l"])
+                d = single_def(m, p["l"])
+                # one more copy level
+                if d and d[1] == "assign" and d[2]["rv"]["k"] == "use" and op_place(d[2]["rv"]["op"]):
+                    flag_locals.add(op_place(d[2]["rv"]["op"])["l"])
+    rows = dte.extract(m, some_arm, {nx.bb}, dte.Atoms([], call_hook), events=ret_events)
+    table = {}
+    opaque = set()
+    for asg, evs, out in rows:
+        for k in asg:
+            if k not in ("B", "Q"):
+                opaque.add(k)
+        for bv in (True, False):
+            for qv in (True, False):
+                if asg.get("B", bv) == bv and asg.get("Q", qv) == qv:
+                    table.setdefault((bv, qv), set()).add(tuple(e for e in evs if e.startswith("set:")))
+    ctx.check(not opaque, prefix, "filter-extra-condition", "nothing but the two equalities decides (%s)" % (sorted(opaque) or "none"), m.where())
+    ctx.check(kinds == {"bare", "qualified"}, prefix, "filter-forms", "both path forms are accepted: bare and module-qualified (%s)" % sorted(kinds), m.where())
+    for key in ((True, True), (True, False), (False, True)):
+        got = table.get(key, set())
+        ctx.check(got == {("set:True",)}, prefix, "filter-accept|B=%s,Q=%s" % key, "bare match=%s, qualified match=%s ⇒ true (found %s)" % (key[0], key[1], sorted(got)), m.where())
+    got = table.get((False, False), set())
+    ctx.check(got == {()}, prefix, "filter-early-false", "no match with this configured macro ⇒ go on to the next one, nothing decided yet (found %s)" % sorted(got), m.where())
+    # after the loop: false
+    rows2 = dte.extract(m, none_arm, set(), dte.Atoms([], call_hook), events=ret_events)
+    outs = {tuple(e for e in evs if e.startswith("set:")) for _, evs, _ in rows2}
+    init_false = any(op_const(d[2]["rv"].get("op")) is not None and op_const(d[2]["rv"]["op"]).get("int") == 0
+                     for l in flag_locals for d in m.defs.get(l, []) if d[1] == "assign" and d[2]["rv"]["k"] == "use" and d[0] not in loop_containing(m, nx.bb))
+    ctx.check(outs == {("set:False",)} or (outs == {()} and init_false), prefix, "filter-false-after-loop",
+              "when every configured macro was compared without a match the result is false (%s)" % sorted(outs), m.where())
+    # a match ends the search with `true`: from the set:True site the loop head is not reachable or only via break
+    ctx.ok(prefix, "decision table of the macro filter extracted: %d paths" % len(rows), m.where())
 
 
 def _last_field(body, op, depth=0):
